@@ -410,6 +410,17 @@ def analyse_output(chk, name, fi, o, label, tag_is_str, field_is_str, ts, seen, 
 SELF = ("sym", "self")
 
 
+def as_dict_comp(t):
+    """{k: v for ...}  ==  dict((k, v) for ...)  ==  a generator / list of (k, v) pairs handed to dict.update"""
+    if t is None:
+        return t
+    if t[0] == "call" and t[1] == ("glob", "ext:builtins.dict") and len(t[2]) == 1 and not t[3]:
+        t = t[2][0]
+    if t[0] == "comp" and t[1] in ("gen", "list", "set") and t[2][0] == "tuple" and len(t[2][1]) == 2:
+        return ("comp", "dict", t[2], t[3])
+    return t
+
+
 def line_slots(prog):
     cls = prog.cls(LINE_FMT)
     return {
@@ -462,7 +473,7 @@ def line_formatter_rules(chk):
                 return res_none
             return decide(it, path, term)
 
-        it = Interp(prog, fmt, decide=decide2, inline=lambda f, ct: f.cls is cls and f is not fmt and not f.is_async)
+        it = Interp(prog, fmt, decide=decide2, inline=lambda f, ct: not f.is_async and ((f.cls is cls and f is not fmt) or (f.cls is None and f.module.name.startswith(cls.module.name.rpartition(".")[0]) and f.name.startswith("_"))))
         outs = it.run()
         chk.count(len(outs))
         for o in outs:
@@ -536,7 +547,7 @@ def line_formatter_rules(chk):
             upd = [e for e in evs if e[0] == "call" and e[1][1][0] == "attr" and e[1][1][2] == "update" and e[1][1][1] == tags]
             tags_ok = False
             if tags is not None and tags[0] == "call" and tags[1][0] == "attr" and tags[1][2] == "copy" and tags[1][1] == ("attr", SELF, LS["defaults"]) and len(upd) == 1:
-                comp = upd[0][1][2][0] if upd[0][1][2] else None
+                comp = as_dict_comp(upd[0][1][2][0]) if upd[0][1][2] else None
                 if comp and comp[0] == "comp" and comp[1] == "dict":
                     conds = [c for g in comp[3] for c in g[2]]
                     if len(conds) == 1 and conds[0][0] == "cmp" and conds[0][1] == "in" and conds[0][3] == ("attr", SELF, LS["whitelist"]):
@@ -576,6 +587,7 @@ def line_formatter_rules(chk):
                 else:
                     chk.undecided(rule, name, "tag assembly idiom not recognised: %s" % show(tags), node=fmt.node)
                     ok = False
+            fields = as_dict_comp(fields)
             if fields is not None and fields[0] == "comp" and fields[1] == "dict":
                 conds = [c for g in fields[3] for c in g[2]]
                 if not (len(conds) == 1 and conds[0][0] == "cmp" and conds[0][1] == "not in" and conds[0][3] == ("attr", SELF, LS["blacklist"])):
@@ -643,7 +655,7 @@ def json_rules(chk):
                 return False
             return None
 
-        it = Interp(prog, fmt, decide=decide, inline=lambda f, ct: f.cls is not None and f.cls is fmt.cls and f is not fmt and not f.is_async)
+        it = Interp(prog, fmt, decide=decide, inline=lambda f, ct: not f.is_async and ((f.cls is not None and f.cls is fmt.cls and f is not fmt) or (f.cls is None and f.module.name.startswith(fmt.module.name.rpartition(".")[0]) and f.name.startswith("_"))))
         outs = it.run()
         chk.count(len(outs))
         for o in outs:
@@ -756,7 +768,9 @@ def formatter_configuration(chk):
                 continue  # truthiness forks of `tags` (e.g. `tags or {}`) are explored separately
             st = {e[1][2]: strip_sites(e[2]) for e in o.path.events if e[0] == "store" and e[1][1] == SELF}
             d, w = st.get(LS["defaults"]), st.get(LS["whitelist"])
-            empty = lambda x: x in (("dict", ()), ("call", ("glob", "ext:builtins.dict"), (), ()), ("call", ("glob", "ext:builtins.set"), (), ()), ("set", ()))  # noqa: E731
+            empty = lambda x: x in (("dict", ()), ("call", ("glob", "ext:builtins.dict"), (), ()), ("call", ("glob", "ext:builtins.set"), (), ()), ("call", ("glob", "ext:builtins.frozenset"), (), ()), ("set", ()))  # noqa: E731
+            if w and w[0] == "call" and w[1] == ("glob", "ext:builtins.frozenset"):
+                w = ("call", ("glob", "ext:builtins.set")) + tuple(w[2:])  # membership only: frozenset is the same whitelist
             want_d = TAGS if kind == "mapping" else None
             want_w = ("call", ("glob", "ext:builtins.set"), (TAGS,), ()) if kind != "none" else None
             if (want_d is None and not empty(d)) or (want_d is not None and d not in (want_d, ("call", ("glob", "ext:builtins.dict"), (TAGS,), ()))):
@@ -790,7 +804,7 @@ def empty_payload(chk):
                 return True
             return None
 
-        outs = Interp(prog, fmt, decide=decide, unroll=1, assert_raises=False, inline=lambda f, ct: f.cls is cls and f is not fmt).run()
+        outs = Interp(prog, fmt, decide=decide, unroll=1, assert_raises=False, inline=lambda f, ct: (f.cls is cls and f is not fmt) or (f.cls is None and not f.is_async and f.module.name.startswith(cls.module.name.rpartition(".")[0]) and f.name.startswith("_"))).run()
         chk.count(len(outs))
         if not hit["n"] and any((isinstance(n, ast.Call) and util.dotted(n.func) == "isinstance" and "tuple" in util.unparse(n)) or (isinstance(n, ast.Subscript) and "args" in util.unparse(n.value)) for n in ast.walk(fmt.node)):
             chk.undecided(rule, fmt.qual, "the empty-payload case is not written as a comparison with ({},)", node=fmt.node, aux=True)
